@@ -271,6 +271,10 @@ where
             if self.card_command(CMD24, start_idx)? != 0x00 {
                 return Err(Error::WriteError);
             }
+            // The card is given at least one byte time between its response
+            // and the data block (N_WR); the multi-block path below gets it
+            // from the same wait.
+            self.wait_not_busy(Delay::new_write())?;
             self.write_data(DATA_START_BLOCK, &blocks[0].contents)?;
             self.wait_not_busy(Delay::new_write())?;
             if self.card_command(CMD13, 0)? != 0x00 {
